@@ -113,11 +113,17 @@ func runC01(o *Out, rng *Rng, tier string, replay string) {
 		if c%3 == 1 {
 			cfg.faults = true // some check-ins meet a failing read or write of the travellers table
 		}
-		s := genEngine(r, wd, "C01", cfg)
+		var s *engSession
+		if c%15 == 7 {
+			s = genC01Full(r, wd) // a full history and a through check-in whose later flight is too old
+		} else {
+			s = genEngine(r, wd, "C01", cfg)
+		}
 		keepFails(o, s, "C01")
 		engNote(o, s)
 		nt := s.stat["submits_accepted"] > 0 && s.stat["submits_refused_1"] > 0 && s.stat["updates_with_credit"] > 0
 		o.CountN("checkins_with_storage_fault", s.stat["checkins_with_storage_fault"])
+		o.CountN("submissions_with_a_later_flight_too_old_for_a_full_history", s.stat["submissions_with_a_later_flight_too_old_for_a_full_history"])
 		o.AddCase(List(s.coq), nt, s.ops)
 		s.close()
 	}
